@@ -781,6 +781,37 @@ def large_batch_oracle(ctx, uo):
                               broken="oracle (one key per output element) / C06_keys_never_shared")
 
 
+def deep_batch_oracle(ctx, uo):
+    """Batch ranks 4 and 5 with a condition batch that broadcasts through size-one axes and has fewer leading axes than x: element
+    I of log_prob equals the unbatched call on (x[I], condition[projected I]) (NumPy rule).  Sampled indices.  (Seeded change C06e.)"""
+    import jax.numpy as jnp
+    from flowjax.bijections import AdditiveCondition
+    from flowjax.distributions import Normal, Transformed
+
+    rng = ctx.rng
+    d = Transformed(Normal(jnp.zeros(2), jnp.asarray([0.7, 1.3])), AdditiveCondition(lambda c: jnp.tanh(c[:2]) * 2.0 + c[2], (2,), (3,)))
+    for xb, cb in (((2, 3, 4, 5), (4, 1)), ((2, 3, 1, 5), (4, 5)), ((2, 1, 3, 2, 2), (3, 1, 2)), ((3, 2, 2, 2), (2,)), ((2, 2, 2, 3), (1, 1, 1, 1))):
+        x = rng.normal(0, 1, xb + (2,))
+        c = rng.normal(0, 1, cb + (3,))
+        out_shape = np.broadcast_shapes(xb, cb)
+        got = np.asarray(d.log_prob(jnp.asarray(x), jnp.asarray(c)), dtype=float)
+        uo.count(("deep-batch", xb, cb), nontrivial=True, tag="deep-batch")
+        errs = []
+        if got.shape != out_shape:
+            errs.append(f"shape {got.shape}, NumPy broadcasting gives {out_shape}")
+        else:
+            xB, cB = np.broadcast_to(x, out_shape + (2,)), np.broadcast_to(c, out_shape + (3,))
+            for _ in range(12):
+                I = tuple(int(rng.integers(0, n)) for n in out_shape)
+                ref = float(d.log_prob(jnp.asarray(xB[I]), jnp.asarray(cB[I])))
+                if not abs(got[I] - ref) <= 1e-12 * max(1.0, abs(ref)):
+                    errs.append(f"element {I} is {got[I]!r} but the unbatched call on the broadcast slices gives {ref!r}")
+                    break
+        if errs:
+            ctx.violation(sig="deep-batch", what=f"log_prob with x batch {xb} and condition batch {cb}: " + "; ".join(errs), found_input=True,
+                          case=dict(unit="deep-batch", x_batch=list(xb), cond_batch=list(cb), seed=int(ctx.seed)), unit=uo.name, broken="oracle: batched element == unbatched call (batch rank >= 4)")
+
+
 def support_edge_oracle(ctx, uo):
     """Batched == unbatched ALSO where the log-density is -inf (points outside a bounded support) or the input is non-finite:
     element I of the batched call equals the unbatched call on that element, as a CLASS (-inf stays -inf).  (Seeded change C06d
@@ -860,6 +891,7 @@ def run(ctx):
     ]
     large_batch_oracle(ctx, uo)
     support_edge_oracle(ctx, uo)
+    deep_batch_oracle(ctx, uo)
 
 
 def replay(ctx, rep):
